@@ -6,11 +6,23 @@ import (
 )
 
 func apt(key uintptr, write bool) {
-	if t := me(); t != nil && !t.killed {
+	t := me()
+	if t != nil && t.killed {
+		t.die()
+		return
+	}
+	if t != nil {
 		if t.quiet == 0 {
 			s.point(t, &pend{kind: opYield, what: "atomic"})
 		}
-		s.acc(t, key, write)
+		// acquire first, then judge the access, then release: an atomic access is
+		// ordered after every earlier atomic write of the same variable
+		s.vcAcquire(t, key)
+		raceAtomic(key, write)
+		if write {
+			s.vcRelease(t, key)
+		}
+		s.accHash(t, key, write)
 	}
 }
 
